@@ -1216,8 +1216,9 @@ impl ObjectFile {
         let mut second = a_obj.block_map.iter();
         second.next();
         if std::iter::zip(first, second).any(|((&a_st, a_bl), (&b_st, b_bl))| {
-            let ar = a_st .. (a_st + a_bl.len() as u16);
-            let br = b_st .. (b_st + b_bl.len() as u16);
+            // (wide arithmetic: object files read from disk may hold blocks that run past xFFFF)
+            let ar = usize::from(a_st) .. (usize::from(a_st) + a_bl.len());
+            let br = usize::from(b_st) .. (usize::from(b_st) + b_bl.len());
             ranges_overlap(ar, br)
         }) {
             return Err(AsmErr::new(AsmErrKind::OverlappingBlocks, []));
@@ -1295,11 +1296,11 @@ impl ObjectFile {
             (ma, mb) => ma.or(mb)
         };
         for (addr, linked_addr) in relocations {
-            // TODO: handle case where the address needed is not found in block map
-            // should really only occur from invalid manipulation of obj file
-            a_obj.get_mut(addr)
-                .unwrap_or_else(|| unreachable!("object file should have had address x{addr:04X} bound"))
-                .replace(linked_addr);
+            // A relocation entry whose address is not bound in any block can only come from
+            // an object file that was not produced by the assembler; there is nothing to patch.
+            if let Some(word) = a_obj.get_mut(addr) {
+                word.replace(linked_addr);
+            }
         }
 
         Ok(a_obj)
